@@ -247,6 +247,20 @@ func concatOperandsN(v ssa.Value, depth int) []ssa.Value {
 				return concatOperandsN(x.X, depth)
 			}
 		}
+	case *ssa.UnOp:
+		// a key built once outside the transaction closure and captured by it
+		if x.Op == token.MUL {
+			switch cell := x.X.(type) {
+			case *ssa.FreeVar:
+				if sv := ssax.CapturedSingleStore(cell); sv != nil {
+					return concatOperandsN(sv, depth)
+				}
+			case *ssa.Alloc:
+				if sv := ssax.SingleStore(cell); sv != nil {
+					return concatOperandsN(sv, depth)
+				}
+			}
+		}
 	case *ssa.Call:
 		g := x.Call.StaticCallee()
 		if g == nil || depth > 2 || !ssax.InModule(g) {
@@ -420,7 +434,13 @@ func Tenant(w *load.World, c *core.Collector) {
 				o := ssax.Prov(arg)
 				key := fmt.Sprintf("dir:%s@%s", g.Name(), load.FnKey(f))
 				if o["field:UserId"] && o["field:Id"] && o.HasPrefix("call:path/filepath.Join") {
-					c.Add("TENANT", key, core.OK, w.At(in), "", props...)
+					// and the user id enters the path as it is: a component computed from it (sanitised,
+					// truncated, hashed) lets distinct ids share a directory
+					if comp := transformedUserComponent(arg, 0); comp != "" {
+						c.Add("TENANT", key, core.Violation, w.At(in), "the user id does not enter the directory path as it is but through "+comp+": distinct user ids can map to the same directory", props...)
+					} else {
+						c.Add("TENANT", key, core.OK, w.At(in), "", props...)
+					}
 				} else {
 					c.Add("TENANT", key, core.Violation, w.At(in), "the path is not built from the collection's user id and id: the operation is not confined to one tenant's collection", props...)
 				}
@@ -579,9 +599,158 @@ func Tenant(w *load.World, c *core.Collector) {
 			}
 		}
 	}
+	// prefix tests on keys: in the cluster layer a key (or path) is only ever matched against a prefix
+	// that ends in a constant separator; a bare identifier as prefix also matches every identifier it is
+	// a prefix of ("user1" matches the records of "user10")
+	nPre := 0
+	for _, f := range w.Fns {
+		if load.PkgPath(f) != clusterPkg {
+			continue
+		}
+		for _, b := range f.Blocks {
+			for _, in := range b.Instrs {
+				call, ok := in.(*ssa.Call)
+				if !ok {
+					continue
+				}
+				g := call.Call.StaticCallee()
+				if g == nil || (g.String() != "strings.HasPrefix" && g.String() != "bytes.HasPrefix") {
+					continue
+				}
+				nPre++
+				ops := concatOperands(call.Call.Args[1])
+				last := ops[len(ops)-1]
+				key := "prefix-test:" + load.FnKey(f)
+				if sc, isC := ssax.ConstString(last); isC && sc != "" {
+					c.Add("TENANT", key, core.OK, w.At(in), "", props...)
+				} else {
+					c.Add("TENANT", key, core.Violation, w.At(in), "a key is matched against a prefix that does not end in the delimiter: an identifier that merely starts with this one matches too, so its records are treated as belonging to the same owner", "C16", "C13", "C14")
+				}
+			}
+		}
+	}
+	c.Count("prefix_tests_in_cluster", nPre)
 	c.Count("user_id_concatenations", nCat)
 	c.Count("user_id_uses_in_handlers", nU)
 	if nU < 6 {
 		c.Add("TENANT", "anchor:user-id-uses", core.Undecided, "", fmt.Sprintf("found %d user id uses in handlers, expected at least 6", nU), props...)
 	}
+}
+
+// transformedUserComponent walks a path value back to its filepath.Join calls and reports a Join
+// argument that derives from a user id without being the UserId field (or a parameter / variable that
+// carries it unchanged): the name of the function that transformed it.
+func transformedUserComponent(v ssa.Value, depth int) string {
+	return transformedUserComponentC(v, map[ssa.Value]bool{}, depth)
+}
+
+// carrying: parameters of the helper being looked into that were handed a user id by the caller
+func transformedUserComponentC(v ssa.Value, carrying map[ssa.Value]bool, depth int) string {
+	if depth > 6 {
+		return ""
+	}
+	carriesUser := func(x ssa.Value) bool {
+		if carrying[x] {
+			return true
+		}
+		o := ssax.Prov(x)
+		if o["field:UserId"] {
+			return true
+		}
+		for p := range carrying {
+			if pp, ok := p.(*ssa.Parameter); ok && o["param:"+pp.Name()] {
+				return true
+			}
+		}
+		return false
+	}
+	switch x := v.(type) {
+	case *ssa.Phi:
+		for _, e := range x.Edges {
+			if r := transformedUserComponentC(e, carrying, depth+1); r != "" {
+				return r
+			}
+		}
+	case *ssa.Call:
+		g := x.Call.StaticCallee()
+		if g == nil {
+			return ""
+		}
+		if g.String() == "path/filepath.Join" {
+			// variadic: elements of the backing array
+			for _, a := range x.Call.Args {
+				sl, ok := a.(*ssa.Slice)
+				if !ok {
+					continue
+				}
+				al, ok := sl.X.(*ssa.Alloc)
+				if !ok {
+					continue
+				}
+				for _, r := range *al.Referrers() {
+					ia, ok := r.(*ssa.IndexAddr)
+					if !ok {
+						continue
+					}
+					for _, rr := range *ia.Referrers() {
+						st, ok := rr.(*ssa.Store)
+						if !ok || st.Addr != ssa.Value(ia) {
+							continue
+						}
+						if res := transformedUserComponentC(st.Val, carrying, depth+1); res != "" {
+							return res
+						}
+						if c2, ok := st.Val.(*ssa.Call); ok && c2.Call.StaticCallee() != nil && c2.Call.StaticCallee().String() != "path/filepath.Join" {
+							if carriesUser(c2) && !returnsJoinedPath(c2.Call.StaticCallee(), 0) {
+								return load.Short(c2.Call.StaticCallee().String())
+							}
+						}
+					}
+				}
+			}
+			return ""
+		}
+		if ssax.InModule(g) {
+			// a path helper of the module: look at what it returns, knowing which of its parameters
+			// were given a user id
+			inner := map[ssa.Value]bool{}
+			for i, p := range g.Params {
+				if i < len(x.Call.Args) && carriesUser(x.Call.Args[i]) {
+					inner[p] = true
+				}
+			}
+			for _, b := range g.Blocks {
+				if r, ok := b.Instrs[len(b.Instrs)-1].(*ssa.Return); ok && len(r.Results) > 0 {
+					if res := transformedUserComponentC(r.Results[0], inner, depth+1); res != "" {
+						return res
+					}
+				}
+			}
+		}
+	}
+	return ""
+}
+
+// returnsJoinedPath: a module helper all of whose returns are filepath.Join results (or results of such helpers).
+func returnsJoinedPath(g *ssa.Function, depth int) bool {
+	if !ssax.InModule(g) || depth > 3 {
+		return false
+	}
+	n := 0
+	for _, b := range g.Blocks {
+		r, ok := b.Instrs[len(b.Instrs)-1].(*ssa.Return)
+		if !ok || len(r.Results) == 0 {
+			continue
+		}
+		n++
+		call, ok := r.Results[0].(*ssa.Call)
+		if !ok || call.Call.StaticCallee() == nil {
+			return false
+		}
+		cg := call.Call.StaticCallee()
+		if cg.String() != "path/filepath.Join" && !returnsJoinedPath(cg, depth+1) {
+			return false
+		}
+	}
+	return n > 0
 }
